@@ -105,6 +105,21 @@ pub(crate) fn c06_image_overflow_known() {
     std::mem::forget(tr);
 }
 
+/// Label look-up: a reference in another letter case than the definition (accepted by the parser,
+/// which compares labels case-insensitively).  Minimal program: `A:` / `JMP a`.
+/// NOT DECIDED: even this two-line program does not finish within 15 min / 9 GB (hashbrown probing and
+/// SipHash over heap strings inside CBMC); kept as the statement of the obligation, not registered.
+#[allow(dead_code)]
+pub(crate) fn c06_x_finish_label_case() {
+    let mut tr = Translator::new();
+    vcover!(true, "pre");
+    tr.push(&Line::Label("A".to_string(), None));
+    tr.push(&Line::Instruction(Instruction::Call("a".to_string()), None));
+    let code = tr.finish();
+    vassert!(code.lines.len() == 2, "C06.P.finish.returns-normally");
+    std::mem::forget(code);
+}
+
 crate::replay_table!(verif_replay_c06;
     c06_dec_reg, c06_dec_ind, c06_dec_abs, c06_dec_const, c06_dec_inc, c06_dec_dinc, c06_clr, c06_add, c06_lsl, c06_rlc, c06_push,
     c06_jmp, c06_jr, c06_call, c06_stop, c06_ldsp_reg, c06_stacksize, c06_programsize, c06_org_forward, c06_byte,
